@@ -188,6 +188,11 @@ ORDINARY = {
     "nl": ["kat", "huis", "de", "ik", "heb"] + _ODD + ["nulennul", "nulnul"],
 }
 # another language's decimal-separator word is an ordinary word (the facade must not know it)
+# words with an apostrophe (elisions, clitics, possessives): one token each, never the bare article
+_APOS = {"en": ["it's", "dog's", "o'clock"], "fr": ["l'eau", "l'ami", "d'accord", "qu'il", "aujourd'hui"], "es": ["d'Artagnan"],
+         "pt": ["d'água"], "it": ["l'anno", "dell'anno", "un'ora"], "de": ["geht's"], "nl": ["'s", "zo'n"]}
+for _l in ORDINARY:
+    ORDINARY[_l] += _APOS[_l]
 _OWN = {"en": ["point"], "fr": ["virgule"], "es": ["coma"], "pt": ["vírgula"], "it": ["virgola"], "de": ["komma"], "nl": ["komma"]}
 for _l in ORDINARY:
     ORDINARY[_l] += [w for w in _SEPWORDS if w not in _OWN[_l]]
